@@ -184,11 +184,40 @@ def cargo_build(harness, extra_env=None):
             sh(["cp", src, lock])
         env = {"CARGO_TARGET_DIR": TARGET}
         env.update(extra_env or {})
+        _forget_other_repo(harness, d, env)
         rc, out = sh(["cargo", "build", "--offline"], cwd=d, env=env, timeout=7200)
         if rc != 0 and "Cargo.lock" in out:
             sh(["cp", src, lock])
             rc, out = sh(["cargo", "build", "--offline"], cwd=d, env=env, timeout=7200)
     return rc == 0, out
+
+
+def _forget_other_repo(harness, d, env):
+    """cargo decides freshness of path dependencies by file mtime. `harness/repo` is a symlink, so after a run with
+    VERIF_REPO=<scratch copy> the crates of /repo (same path through the link, OLDER files) would be considered
+    fresh and the stale build of the other tree would be tested. Remember which tree the target directory was last
+    built from and clean the repo's own crates when it changes."""
+    want = os.path.realpath(REPO)
+    marker = os.path.join(TARGET, f".verif-repo-{harness}")
+    try:
+        have = open(marker).read().strip() if os.path.exists(marker) else None
+        if have is not None and have != want:
+            rc, out = sh(["cargo", "metadata", "--offline", "--format-version", "1"], cwd=d, env=env, timeout=600)
+            names = []
+            if rc == 0:
+                meta = json.loads(out[out.index("{"):])
+                link = os.path.join(VERIF, "harness", "repo") + os.sep
+                for pk in meta.get("packages", []):
+                    mp = pk.get("manifest_path", "")
+                    if mp.startswith(link) or mp.startswith(want + os.sep) or mp.startswith(have + os.sep):
+                        names.append(pk["name"])
+            for n in sorted(set(names)):
+                sh(["cargo", "clean", "--offline", "-p", n], cwd=d, env=env, timeout=600)
+        os.makedirs(TARGET, exist_ok=True)
+        with open(marker, "w") as f:
+            f.write(want)
+    except Exception:      # never let the bookkeeping break a build
+        pass
 
 
 def link_repo():
